@@ -741,4 +741,319 @@ theorem run_trace {G : AGrammar} (h : attrsWF G = true) :
     rw [ihr ss _ hr, specCalls_node G hp hl, hl]
     simp [nodeStack]
 
+/-! ## user-action calls and applications of a non-terminal -/
+
+theorem attr_none_of_user {G : AGrammar} (h : attrsWF G = true) {p : Nat} {pr : AProd}
+    (hp : G.prods[p]? = some pr) (hu : pr.lhs ∈ G.userNts) : pr.attr = .none := by
+  obtain ⟨_, hnt⟩ := attrsWF_prod h hp
+  unfold ntOK at hnt
+  cases ha : pr.attr with
+  | none => rfl
+  | collStart => simp [ha] at hnt; exact absurd hu hnt.2
+  | addToColl => simp [ha] at hnt; exact absurd hu hnt.2
+  | optSome => simp [ha] at hnt; exact absurd hu hnt.2
+  | optNone => simp [ha] at hnt; exact absurd hu hnt.2
+
+/-- A non-terminal with a user action gets one call per application. -/
+theorem calls_count {G : AGrammar} (h : attrsWF G = true) {a : Nat} (ha : a ∈ G.userNts) :
+    ∀ (f : Forest) (syms : List ASym), wf G syms f = true →
+    ((specCalls G f).filter (fun c => c.nt == a)).length = occ a f := by
+  intro f
+  induction f with
+  | nil => intro _ _; simp [specCalls, occ]
+  | tok id ty r ih =>
+    intro syms hw
+    obtain ⟨s, ss, rfl, _, hr⟩ := wf_tok_inv hw
+    simpa [specCalls, occ] using ih ss hr
+  | node p l ch r ihch ihr =>
+    intro syms hw
+    obtain ⟨s, ss, pr, rfl, hs, hp, hl, hch, hr⟩ := wf_node_inv hw
+    rw [specCalls_node G hp hl]
+    simp only [List.filter_append, List.length_append, ihch pr.rhs hch, ihr ss hr, occ]
+    by_cases hla : l = a
+    · subst hla
+      have hn : pr.attr = .none := attr_none_of_user h hp (by rw [hl]; exact ha)
+      simp [nodeCalls, hn, hl, ha]
+      omega
+    · have : ((nodeCalls G p pr ch).filter (fun c => c.nt == a)).length = 0 := by
+        unfold nodeCalls
+        split
+        · simp [hl, hla]
+        · simp
+      simp [this, hla]
+
+/-- A non-terminal that is on no right-hand side reachable without passing the start symbol is not
+    applied below symbols other than itself and the start symbol. -/
+theorem occ_zero {G : AGrammar} {a st : Nat}
+    (h1 : ∀ pr ∈ G.prods, pr.lhs ≠ st → ∀ s ∈ pr.rhs, s.sym ≠ .n a)
+    (h2 : ∀ pr ∈ G.prods, ∀ s ∈ pr.rhs, s.sym ≠ .n st) :
+    ∀ (f : Forest) (syms : List ASym), wf G syms f = true →
+    (∀ s ∈ syms, s.sym ≠ .n a ∧ s.sym ≠ .n st) → occ a f = 0 := by
+  intro f
+  induction f with
+  | nil => intro _ _ _; rfl
+  | tok id ty r ih =>
+    intro syms hw hP
+    obtain ⟨s, ss, rfl, _, hr⟩ := wf_tok_inv hw
+    exact ih ss hr (fun x hx => hP x (List.mem_cons_of_mem _ hx))
+  | node p l ch r ihch ihr =>
+    intro syms hw hP
+    obtain ⟨s, ss, pr, rfl, hs, hp, hl, hch, hr⟩ := wf_node_inv hw
+    obtain ⟨hna, hnst⟩ := hP s List.mem_cons_self
+    rw [hs] at hna hnst
+    have hla : l ≠ a := fun e => hna (by rw [e])
+    have hlst : pr.lhs ≠ st := fun e => hnst (by rw [← hl, e])
+    have hmem := List.mem_of_getElem? hp
+    simp only [occ, hla, if_false]
+    rw [ihch pr.rhs hch (fun x hx => ⟨h1 pr hmem hlst x hx, h2 pr hmem x hx⟩),
+      ihr ss hr (fun x hx => hP x (List.mem_cons_of_mem _ hx))]
+
+/-- What `startIsolated` says about a derivation of the start symbol: the root applies a production
+    of the start symbol, and either the user's start symbol is the start symbol and is not applied
+    below the root, or (augmented grammar `S' → S`) the root has the single child `S`, applied by
+    `q`, and `S` is not applied below that child. -/
+theorem start_shape {G : AGrammar} (h : startIsolated G = true) (f : Forest)
+    (hw : wf G [⟨.n G.start, .none⟩] f = true) :
+    ∃ p ch pr, f = .node p G.start ch .nil ∧ G.prods[p]? = some pr ∧ pr.lhs = G.start ∧
+      wf G pr.rhs ch = true ∧
+      ((G.userStart = G.start ∧ occ G.start ch = 0) ∨
+       (G.userStart ≠ G.start ∧ pr.rhs = [⟨.n G.userStart, .none⟩] ∧
+         ∃ q chq prq, ch = .node q G.userStart chq .nil ∧ G.prods[q]? = some prq ∧
+           prq.lhs = G.userStart ∧ wf G prq.rhs chq = true ∧ occ G.userStart chq = 0)) := by
+  simp only [startIsolated, Bool.and_eq_true, List.all_eq_true, Bool.or_eq_true, beq_iff_eq, bne_iff_ne] at h
+  obtain ⟨⟨_, h2⟩, h3⟩ := h
+  rcases wf_cons_inv G _ _ f hw with ⟨id, ty, r, rfl, hs, _⟩ | ⟨p, l, ch, r, pr, rfl, hs, hp, hl, hch, hr⟩
+  · simp at hs
+  · have hrn := wf_nil_syms G r hr
+    subst hrn
+    simp only [Sym.n.injEq] at hs
+    subst hs
+    have hmem := List.mem_of_getElem? hp
+    refine ⟨p, ch, pr, rfl, hp, hl, hch, ?_⟩
+    have hA : occ G.start ch = 0 :=
+      occ_zero (G := G) (a := G.start) (st := G.start) (fun pr hpr _ => h2 pr hpr) h2 ch pr.rhs hch
+        (fun x hx => ⟨h2 pr hmem x hx, h2 pr hmem x hx⟩)
+    by_cases hus : G.userStart = G.start
+    · exact Or.inl ⟨hus, hA⟩
+    · rcases h3 with h3 | h3
+      · exact absurd h3 hus
+      · right
+        have h1 : ∀ pr ∈ G.prods, pr.lhs ≠ G.start → ∀ s ∈ pr.rhs, s.sym ≠ .n G.userStart := by
+          intro pr' hpr' hne x hx
+          have := h3 pr' hpr'
+          simp only [hne, if_false, List.all_eq_true, bne_iff_ne] at this
+          simpa using this x hx
+        have hp3 : pr.rhs = [⟨.n G.userStart, .none⟩] := by
+          have := h3 pr hmem
+          simpa [hl] using this
+        refine ⟨hus, hp3, ?_⟩
+        rw [hp3] at hch
+        rcases wf_cons_inv G _ _ ch hch with ⟨id, ty, r', rfl, hs', _⟩ | ⟨q, l', chq, r', prq, rfl, hs', hq, hlq, hchq, hr'⟩
+        · simp at hs'
+        · have hrn' := wf_nil_syms G r' hr'
+          subst hrn'
+          simp only [Sym.n.injEq] at hs'
+          subst hs'
+          have hqmem := List.mem_of_getElem? hq
+          have hqne : prq.lhs ≠ G.start := by rw [hlq]; exact hus
+          exact ⟨q, chq, prq, rfl, hq, hlq, hchq,
+            occ_zero (G := G) (a := G.userStart) (st := G.start) h1 h2 chq prq.rhs hchq
+              (fun x hx => ⟨h1 prq hqmem hqne x hx, h2 prq hqmem x hx⟩)⟩
+
+/-- With an isolated start symbol the user's start symbol is applied exactly once. -/
+theorem occ_start {G : AGrammar} (h : startIsolated G = true) (f : Forest)
+    (hw : wf G [⟨.n G.start, .none⟩] f = true) : occ G.userStart f = 1 := by
+  obtain ⟨p, ch, pr, rfl, hp, hl, hch, hcase⟩ := start_shape h f hw
+  rcases hcase with ⟨hus, ho⟩ | ⟨hus, _, q, chq, prq, rfl, hq, hlq, hchq, ho⟩
+  · rw [hus]; simp [occ, ho]
+  · have hne' : ¬ G.start = G.userStart := fun e => hus e.symm
+    simp [occ, ho, hne']
+
+theorem filter_calls_nil {G : AGrammar} (h : attrsWF G = true) {a : Nat} (ha : a ∈ G.userNts)
+    {f : Forest} {syms : List ASym} (hw : wf G syms f = true) (ho : occ a f = 0) :
+    (specCalls G f).filter (fun c => c.nt == a) = [] := by
+  have := calls_count h ha f syms hw
+  rw [ho] at this
+  exact List.eq_nil_of_length_eq_zero this
+
+/-! ## repetitions: the iterations of a collection, in input order -/
+
+/-- `Iterations G a t bodies`: `t` is a derivation tree of the collection non-terminal `a` — the
+    chain `R' → body R' → … → ε` (LL) resp. `R' → R' body → … ` (LALR) — and `bodies` lists, **in
+    input order**, the member values of the bodies of its iterations (`spec` of the body's
+    sub-forest: in an LL application the body forest `fb` stands left of, i.e. before, the rest of
+    the chain; in an LALR application right of, i.e. after, the chain so far). -/
+inductive Iterations (G : AGrammar) (a : Nat) : Forest → List (List Ast) → Prop
+  | start {p : Nat} {pr : AProd} : G.prods[p]? = some pr → pr.lhs = a → pr.attr = .collStart →
+      Iterations G a (.node p a .nil .nil) []
+  | ll {p : Nat} {pr : AProd} {fb next : Forest} {its : List (List Ast)} :
+      G.ll = true → G.prods[p]? = some pr → pr.lhs = a → pr.attr = .addToColl →
+      wf G pr.rhs.dropLast fb = true → Iterations G a next its →
+      Iterations G a (.node p a (fb.append next) .nil) (spec G pr.rhs.dropLast fb :: its)
+  | lr {p : Nat} {pr : AProd} {fb next : Forest} {its : List (List Ast)} :
+      G.ll = false → G.prods[p]? = some pr → pr.lhs = a → pr.attr = .addToColl →
+      wf G pr.rhs.tail fb = true → Iterations G a next its →
+      Iterations G a (.node p a (next.append fb) .nil) (its ++ [spec G pr.rhs.tail fb])
+
+/-- every top-level collection application is an iteration chain whose declarative value lists the
+    iterations in input order -/
+def AllIter (G : AGrammar) : Forest → Prop
+  | .nil => True
+  | .tok _ _ r => AllIter G r
+  | .node p l ch r =>
+    (∀ pr, G.prods[p]? = some pr → pr.attr.isColl = true →
+      ∃ its, Iterations G l (.node p l ch .nil) its ∧
+        specNode G p pr (spec G pr.rhs ch) = .vec (its.map Ast.struct)) ∧ AllIter G r
+
+theorem AllIter_append (G : AGrammar) (fa fb : Forest) :
+    AllIter G (fa.append fb) ↔ AllIter G fa ∧ AllIter G fb := by
+  induction fa with
+  | nil => simp [Forest.append, AllIter]
+  | tok id ty r ih => simp [Forest.append, AllIter, ih]
+  | node p l ch r _ ih => simp [Forest.append, AllIter, ih, and_assoc]
+
+theorem iterations_all {G : AGrammar} (h : attrsWF G = true) :
+    ∀ (f : Forest) (syms : List ASym), wf G syms f = true → AllIter G f := by
+  intro f
+  induction f with
+  | nil => intro _ _; trivial
+  | tok id ty r ih =>
+    intro syms hw
+    obtain ⟨s, ss, rfl, _, hr⟩ := wf_tok_inv hw
+    exact ih ss hr
+  | node p l ch r ihch ihr =>
+    intro syms hw
+    obtain ⟨s, ss, pr, rfl, hs, hp, hl, hch, hr⟩ := wf_node_inv hw
+    refine ⟨?_, ihr ss hr⟩
+    intro pr' hp' hc
+    have : pr' = pr := by rw [hp] at hp'; injection hp' with e; exact e.symm
+    subst this
+    have hall := ihch pr'.rhs hch
+    obtain ⟨hrhs, _⟩ := attrsWF_prod h hp
+    have hcoll : isCollNt G pr'.lhs = true := isCollNt_of_coll hp hc
+    cases ha : pr'.attr with
+    | none => simp [ha, PAttr.isColl] at hc
+    | optSome => simp [ha, PAttr.isColl] at hc
+    | optNone => simp [ha, PAttr.isColl] at hc
+    | collStart =>
+      have hre := rhs_empty hrhs (Or.inl ha)
+      rw [hre] at hch
+      have hcn := wf_nil_syms G ch hch
+      subst hcn
+      exact ⟨[], .start hp hl ha, by simp [specNode, ha]⟩
+    | addToColl =>
+      by_cases hll : G.ll = true
+      · obtain ⟨hr1, _⟩ := rhs_addToColl_ll hrhs ha hll
+        have hch' := hch
+        rw [hr1] at hch'
+        obtain ⟨fa, fb, rfl, hwa, hwb⟩ := wf_append_split G _ _ ch hch'
+        obtain ⟨_, hfb⟩ := (AllIter_append G fa fb).1 hall
+        rcases wf_cons_inv G _ _ fb hwb with ⟨id, ty, r', rfl, hs', _⟩ | ⟨q, l', chq, r', prq, rfl, hs', hq, hlq, hchq, hr'⟩
+        · simp at hs'
+        · have hr'nil : r' = .nil := wf_nil_syms G r' hr'
+          subst hr'nil
+          simp only [Sym.n.injEq] at hs'
+          have hqc : prq.attr.isColl = true := coll_of_isCollNt h hq (by rw [hlq, ← hs']; exact hcoll)
+          obtain ⟨its, hit, hval⟩ := hfb.1 prq hq hqc
+          have hll' : l' = l := by rw [← hs', hl]
+          subst hll'
+          refine ⟨spec G pr'.rhs.dropLast fa :: its, .ll hll hp hl ha hwa hit, ?_⟩
+          have hsp : spec G pr'.rhs (fa.append (.node q l' chq .nil)) =
+              spec G pr'.rhs.dropLast fa ++ [.vec (its.map Ast.struct)] := by
+            rw [hr1, spec_append G _ _ fa _ hwa]
+            simp [spec, hq, hval]
+          rw [hsp]
+          simp [specNode, ha, hll]
+      · have hll' : G.ll = false := by simpa using hll
+        obtain ⟨hr1, _⟩ := rhs_addToColl_lr hrhs ha hll'
+        have hch' := hch
+        rw [hr1] at hch'
+        rcases wf_cons_inv G _ _ ch hch' with ⟨id, ty, r', rfl, hs', _⟩ | ⟨q, l', chq, r', prq, rfl, hs', hq, hlq, hchq, hr'⟩
+        · simp at hs'
+        · simp only [Sym.n.injEq] at hs'
+          have hqc : prq.attr.isColl = true := coll_of_isCollNt h hq (by rw [hlq, ← hs']; exact hcoll)
+          obtain ⟨its, hit, hval⟩ := hall.1 prq hq hqc
+          have hl'l : l' = l := by rw [← hs', hl]
+          subst hl'l
+          refine ⟨its ++ [spec G pr'.rhs.tail r'], ?_, ?_⟩
+          · have := Iterations.lr (fb := r') hll' hp hl ha hr' hit
+            simpa [Forest.append] using this
+          · have hsp : spec G pr'.rhs (.node q l' chq r') =
+                .vec (its.map Ast.struct) :: spec G pr'.rhs.tail r' := by
+              rw [hr1]
+              simp [spec, hq, hval]
+            rw [hsp]
+            simp [specNode, ha, hll']
+
+/-! ## the non-clipped tokens among all tokens -/
+
+theorem expToks_sublist (G : AGrammar) : ∀ (f : Forest) (syms : List ASym), wf G syms f = true →
+    (expToks G syms f).Sublist f.allToks := by
+  intro f
+  induction f with
+  | nil => intro syms _; cases syms <;> simp [expToks, Forest.allToks]
+  | tok id ty r ih =>
+    intro syms hw
+    obtain ⟨s, ss, rfl, _, hr⟩ := wf_tok_inv hw
+    simp only [expToks, Forest.allToks]
+    split
+    · exact List.Sublist.cons _ (by simpa using ih ss hr)
+    · exact List.Sublist.cons_cons _ (by simpa using ih ss hr)
+  | node p l ch r ihch ihr =>
+    intro syms hw
+    obtain ⟨s, ss, pr, rfl, hs, hp, hl, hch, hr⟩ := wf_node_inv hw
+    simp only [expToks, Forest.allToks, hp]
+    apply List.Sublist.append _ (ihr ss hr)
+    split
+    · exact List.nil_sublist _
+    · exact ihch pr.rhs hch
+
+theorem expToks_noclip {G : AGrammar} (hn : ∀ pr ∈ G.prods, ∀ s ∈ pr.rhs, s.attr ≠ .clipped) :
+    ∀ (f : Forest) (syms : List ASym), wf G syms f = true → (∀ s ∈ syms, s.attr ≠ .clipped) →
+    expToks G syms f = f.allToks := by
+  intro f
+  induction f with
+  | nil => intro syms _ _; cases syms <;> simp [expToks, Forest.allToks]
+  | tok id ty r ih =>
+    intro syms hw hc
+    obtain ⟨s, ss, rfl, _, hr⟩ := wf_tok_inv hw
+    simp [expToks, Forest.allToks, hc s List.mem_cons_self,
+      ih ss hr (fun x hx => hc x (List.mem_cons_of_mem _ hx))]
+  | node p l ch r ihch ihr =>
+    intro syms hw hc
+    obtain ⟨s, ss, pr, rfl, hs, hp, hl, hch, hr⟩ := wf_node_inv hw
+    simp [expToks, Forest.allToks, hp, hc s List.mem_cons_self,
+      ihch pr.rhs hch (hn pr (List.mem_of_getElem? hp)),
+      ihr ss hr (fun x hx => hc x (List.mem_cons_of_mem _ hx))]
+
+/-! ## options -/
+
+theorem spec_option {G : AGrammar} (h : attrsWF G = true) {s : ASym} {ss : List ASym} {q l : Nat}
+    {ch r : Forest} {prq : AProd} (hw : wf G (s :: ss) (.node q l ch r) = true)
+    (hpl : plainOK G s = true) (hopt : s.attr = .option) (hq : G.prods[q]? = some prq) :
+    (prq.attr = .optSome ∧
+      spec G (s :: ss) (.node q l ch r) = .opt (some (.struct (spec G prq.rhs ch))) :: spec G ss r) ∨
+    (prq.attr = .optNone ∧ ch = .nil ∧
+      spec G (s :: ss) (.node q l ch r) = .opt none :: spec G ss r) := by
+  obtain ⟨s', ss', pr, heq, hs, hp, hl, hch, hr⟩ := wf_node_inv hw
+  injection heq with e1 e2
+  subst e1; subst e2
+  have : pr = prq := by rw [hp] at hq; injection hq
+  subst this
+  obtain ⟨_, hoptnt⟩ := plain_nt hpl hs
+  have hisopt : pr.attr.isOpt = true := opt_of_isOptNt h hp (by rw [hl]; exact hoptnt.2 hopt)
+  obtain ⟨hrhs, _⟩ := attrsWF_prod h hp
+  cases ha : pr.attr with
+  | none => simp [ha, PAttr.isOpt] at hisopt
+  | collStart => simp [ha, PAttr.isOpt] at hisopt
+  | addToColl => simp [ha, PAttr.isOpt] at hisopt
+  | optSome =>
+    left
+    simp [spec, hopt, hp, specNode, ha]
+  | optNone =>
+    right
+    have hre := rhs_empty hrhs (Or.inr ha)
+    rw [hre] at hch
+    exact ⟨rfl, wf_nil_syms G ch hch, by simp [spec, hopt, hp, specNode, ha]⟩
+
 end ParolModel.Ast
